@@ -16,7 +16,7 @@ EXPLANATION = (
     "value loaded from the file tables (t.start, t.num, item_offsets[i], item sizes, data offsets) is dominated by a comparison "
     "that mentions that same value.  R3 (OnlyI32 inventory): every `unsafe impl OnlyI32` is for i32 or for a repr(C) struct all of "
     "whose fields are i32 / OnlyI32 types (from the ADT facts), which is what the word-reinterpreting accessors rely on.  "
-    "Not decided: `returns exactly what was stored` (value level)."
+    "R2c: inside check, item_header(i) is called only after the clause that bounds the item header passed for this i.  R4: map::reader::get_index_impl returns Some(i) only with i < indices.end.  Not decided: `returns exactly what was stored` (value level)."
 )
 ASSUMPTIONS = [
     "zlib uncompress is bounded by the destination length passed (FFI boundary)",
